@@ -1159,9 +1159,14 @@ def _case_b10(spec):
     n_ss_before_sp = {}
     raised = []
     for i, op in enumerate(ops):
+        before = {t: id(F.force_matrices.get(t)) for t in range(n)}
         err = _apply(F, op, limit)
         if err is not None:
             raised.append((i, op, err, dict(cur_build[op["t"]]) if op.get("t") in cur_build else None))
+            if op["op"] == "sv":                                  # a raising sweep has rebuilt the matrices of some frames
+                for t in range(n):
+                    if id(F.force_matrices.get(t)) != before[t]:
+                        cur_build[t] = dict(al=bool(op.get("al")), fit="dlite")
             continue
         k = op["op"]
         if k == "bf":
@@ -1170,7 +1175,7 @@ def _case_b10(spec):
             for t in range(n):
                 cur_build[t] = dict(al=bool(op.get("al")), fit="dlite")
         elif k == "ss":
-            last_ss[op["t"]] = (dict(cur_build[op["t"]]), op)
+            last_ss[op["t"]] = (dict(cur_build.get(op["t"]) or dict(al=False, fit="dlite")), op)
             ss_count[op["t"]] += 1
         elif k == "bp":
             stress_at_pbuild[op["t"]] = last_ss.get(op["t"])
